@@ -6,7 +6,7 @@ import { CompilePool, classify, DEFAULT_SETTINGS } from "./compile.mjs";
 import { loadProgram, REPO } from "./runtime.mjs";
 import { familyPrograms } from "./cases.mjs";
 import { renderProgram } from "./spec.mjs";
-import { basePrograms as c09bases, renderLayout, STYLES as C09STYLES, collisionFamily } from "./c09.mjs";
+import { basePrograms as c09bases, renderLayout, STYLES as C09STYLES, collisionFamily, valueRouteLayouts, starGraphLayouts } from "./c09.mjs";
 
 // ---- generator 2: a syntactic grammar over the TypeScript type syntax -------------------------------------
 function grammarPrograms() {
@@ -202,6 +202,12 @@ function multiFileProjects() {
   add("error-in-dependency-last-char", { "entry.ts": 'import { A } from "./a";\nexport const P = parse.buildParsers<{ A: A }>();', "a.ts": "export type A = Missing" });
   add("index-file", { "entry.ts": 'import { A } from "./dir";\nexport const P = parse.buildParsers<{ A: A }>();', "dir/index.ts": 'export { A } from "./inner";', "dir/inner.ts": "export type A = { deep: true };" });
   add("parent-dir", { "entry.ts": 'import { A } from "./dir/x";\nexport const P = parse.buildParsers<{ A: A }>();', "dir/x.ts": 'import { B } from "../b";\nexport type A = { b: B };', "b.ts": "export type B = 1;" });
+  // recursion that goes through import types (named member, default export, generic default export)
+  add("import-type-self-member", { "entry.ts": 'export type L = { n: import("./entry").L | null };\nexport const P = parse.buildParsers<{ A: L }>();' });
+  add("import-type-self-default", { "entry.ts": 'type T = import("./x");\nexport const P = parse.buildParsers<{ A: T }>();', "x.ts": 'type L = { n: import("./x") | null };\nexport default L;' });
+  add("import-type-self-default-generic", { "entry.ts": 'type T = import("./x")<string>;\nexport const P = parse.buildParsers<{ A: T }>();', "x.ts": 'type L<T> = { n: import("./x")<T> | null };\nexport default L;' });
+  add("import-type-self-default-generic-growing", { "entry.ts": 'type T = import("./x")<string>;\nexport const P = parse.buildParsers<{ A: T }>();', "x.ts": 'type L<T> = { n: import("./x")<T[]> | null };\nexport default L;' });
+  add("import-type-mutual-default", { "entry.ts": 'type T = import("./x");\nexport const P = parse.buildParsers<{ A: T }>();', "x.ts": 'type X = { y: import("./y") | null };\nexport default X;', "y.ts": 'type Y = { x: import("./x") };\nexport default Y;' });
   add("bare-module-specifier", { "entry.ts": 'import { A } from "some-package";\nexport const P = parse.buildParsers<{ A: A }>();' });
   add("import-equals", { "entry.ts": 'import A = require("./a");\nexport const P = parse.buildParsers<{ A: A }>();', "a.ts": "export type A = 1;" });
   add("namespace-merge", { "entry.ts": "interface A { a: 1 }\ninterface A { b: 2 }\nnamespace A { export type C = 3 }\nexport const P = parse.buildParsers<{ A: A, C: A.C }>();" });
@@ -322,6 +328,8 @@ export async function run() {
     }
     await mapLimit(layouts, 32, (p) => judge("layouts", p));
     await mapLimit(collisionFamily(TIER === "thorough" ? 4 : 3), 32, (p) => judge("same-name layouts", p));
+    await mapLimit(valueRouteLayouts(), 32, (p) => judge("value-route layouts", p));
+    await mapLimit(starGraphLayouts(), 32, (p) => judge("star-graph layouts", p));
     // generator 2
     await mapLimit(grammarPrograms(), 32, (p) => judge("grammar", p));
     // generator 4
